@@ -236,3 +236,5 @@ def run(ck):
         c02_6(ck, prog)
         from rules.C14 import signature_pairing
         signature_pairing(ck, prog, rid='C02.4')
+        from rules.C01 import c01_10
+        c01_10(ck, prog, 'C02.8')
